@@ -1,3 +1,437 @@
 package main
 
-func cmdCheck(args []string) int { return 2 }
+// The per-property check command used by MANIFEST.json.
+
+import (
+	"encoding/json"
+	"flag"
+	"fmt"
+	"os"
+	"path/filepath"
+	"sort"
+	"strconv"
+	"strings"
+	"time"
+
+	"golang.org/x/tools/go/ssa"
+)
+
+var panicProps = map[string]bool{"C06": true, "C16": true, "C18": true}
+
+type KnownFinding struct {
+	Property   string `json:"property"`
+	Obligation string `json:"obligation"` // exact obligation name, or prefix ending in '*'
+	What       string `json:"what"`
+	Witness    string `json:"witness"`
+	Status     string `json:"status"` // open | fixed: <commit>
+}
+
+type propLevel struct {
+	Level string
+	Expl  string
+}
+
+func loadKnown(path string) []KnownFinding {
+	b, err := os.ReadFile(path)
+	if err != nil {
+		return nil
+	}
+	var doc struct {
+		Findings []KnownFinding `json:"findings"`
+	}
+	if err := json.Unmarshal(b, &doc); err != nil {
+		fmt.Fprintf(os.Stderr, "known_findings.json: %v\n", err)
+		os.Exit(2)
+	}
+	return doc.Findings
+}
+
+func matchKnown(kf KnownFinding, prop, obl string) bool {
+	if kf.Property != prop || !strings.HasPrefix(kf.Status, "open") {
+		return false
+	}
+	if strings.HasSuffix(kf.Obligation, "*") {
+		return strings.HasPrefix(obl, strings.TrimSuffix(kf.Obligation, "*"))
+	}
+	return kf.Obligation == obl
+}
+
+func cmdCheck(args []string) int {
+	fs := flag.NewFlagSet("check", flag.ExitOnError)
+	prop := fs.String("prop", "", "property id")
+	tier := fs.String("tier", "quick", "quick|thorough")
+	repo := fs.String("repo", "/repo", "repository")
+	vdir := fs.String("verif", "/verif", "verif dir")
+	verbose := fs.Bool("v", false, "verbose")
+	only := fs.String("only", "", "only functions containing this substring (debug)")
+	fs.Parse(args)
+	if t := os.Getenv("VERIF_TIER"); t != "" && *tier == "" {
+		*tier = t
+	}
+	seed := 0
+	if s := os.Getenv("VERIF_SEED"); s != "" {
+		seed, _ = strconv.Atoi(s)
+	}
+	t0 := time.Now()
+	e, err := NewEngine(*repo, filepath.Join(*vdir, "spec"))
+	if err != nil {
+		fmt.Printf("ERROR loading %s: %v\n", *repo, err)
+		// a tree that no longer loads cannot be checked: report as undecided violation of every obligation
+		writeReplay(*vdir, *prop, "load", map[string]interface{}{"obligation": "load", "error": err.Error()})
+		fmt.Printf("VIOLATION property=%s replay=%s no-failing-input-found\n", *prop, replayPath(*vdir, *prop, "load"))
+		return 1
+	}
+	loadS := time.Since(t0).Seconds()
+
+	// functions under contract for this property
+	type target struct {
+		fn  *ssa.Function
+		c   *Contract
+		key string
+	}
+	var targets []target
+	var missing []string
+	var keys []string
+	for k := range e.specs.Contracts {
+		keys = append(keys, k)
+	}
+	sort.Strings(keys)
+	for _, k := range keys {
+		c := e.specs.Contracts[k]
+		if c.External || c.Trusted || !c.Props[*prop] {
+			continue
+		}
+		if *only != "" && !strings.Contains(k, *only) {
+			continue
+		}
+		fn := e.lookupFunc(c.Pkg, c.Key)
+		if fn == nil {
+			missing = append(missing, k)
+			continue
+		}
+		targets = append(targets, target{fn, c, k})
+	}
+	var results []*FnResult
+	var allObls []*Obligation
+	props := map[string]bool{*prop: true, "frame": true}
+	for _, t := range targets {
+		res := e.VerifyFunction(t.fn, t.c, panicProps[*prop], props)
+		results = append(results, res)
+		allObls = append(allObls, res.Obls...)
+	}
+	// lemmas
+	lemObls, lemErr := e.lemmaObligations(*prop)
+	allObls = append(allObls, lemObls...)
+
+	cfg := SolveCfg{TimeoutS: 20, Dir: filepath.Join(*vdir, "work", *prop), Workers: 8, Seed: seed}
+	if *tier == "thorough" {
+		cfg.TimeoutS = 90
+		cfg.All = true
+		cfg.Workers = 5
+	}
+	e.Solve(allObls, cfg)
+
+	known := loadKnown(filepath.Join(*vdir, "known_findings.json"))
+	violations := 0
+	machinery := 0
+	nObl, nDis := 0, 0
+	bySolver := map[string]int{}
+	solverSecs := 0.0
+	var samples []string
+	var knownHit []string
+	var failures []string
+	report := func(o *Obligation, why string) {
+		for _, kf := range known {
+			if matchKnown(kf, *prop, o.Name) {
+				fmt.Printf("KNOWN-FINDING: property=%s %s %s\n", *prop, o.Name, kf.What)
+				knownHit = append(knownHit, o.Name)
+				return
+			}
+		}
+		violations++
+		failures = append(failures, o.Name)
+		rp := writeReplay(*vdir, *prop, o.Name, map[string]interface{}{
+			"property": *prop, "obligation": o.Name, "function": o.Func, "kind": o.Kind, "clause": o.Text,
+			"position": o.Pos.String(), "status": why, "solver_output": resultOutput(o), "model": resultModel(o),
+			"inputs": modelInputs(e, o),
+		})
+		suffix := " no-failing-input-found"
+		if o.Result != nil && o.Result.Status == "sat" && o.Result.Phase == "quantified" || (o.Result != nil && o.Result.Status == "sat" && !hasQuantHyps(o)) {
+			if ok := e.tryReplay(*vdir, *prop, o, rp); ok {
+				suffix = ""
+			}
+		}
+		fmt.Printf("VIOLATION property=%s replay=%s%s\n", *prop, rp, suffix)
+		fmt.Printf("  obligation %s (%s) at %s: %s [%s]\n", o.Name, o.Kind, o.Pos, o.Text, why)
+	}
+	for _, o := range allObls {
+		st := "none"
+		if o.Result != nil {
+			st = o.Result.Status
+			solverSecs += o.Result.Seconds
+		}
+		if o.Cover {
+			if st == "unsat" {
+				machinery++
+				fmt.Printf("ERROR vacuity: %s is unsatisfiable (%s)\n", o.Name, o.Text)
+			}
+			continue
+		}
+		nObl++
+		if len(samples) < 12 {
+			samples = append(samples, o.Name+" :: "+o.Text)
+		}
+		if st == "unsat" {
+			nDis++
+			bySolver[o.Result.Solver+"/"+o.Result.Phase]++
+			continue
+		}
+		report(o, st)
+	}
+	var unsup []string
+	for _, r := range results {
+		if r.Unsup != "" || r.Err != "" {
+			msg := r.Unsup
+			if msg == "" {
+				msg = r.Err
+			}
+			unsup = append(unsup, r.Func+": "+msg)
+			violations++
+			name := r.Func + ":translate"
+			rp := writeReplay(*vdir, *prop, name, map[string]interface{}{"property": *prop, "obligation": name, "status": "function could not be translated, its obligations are undecided", "detail": msg})
+			fmt.Printf("VIOLATION property=%s replay=%s no-failing-input-found\n", *prop, rp)
+			fmt.Printf("  %s: %s\n", r.Func, msg)
+		}
+	}
+	for _, m := range missing {
+		violations++
+		name := m + ":missing"
+		rp := writeReplay(*vdir, *prop, name, map[string]interface{}{"property": *prop, "obligation": name, "status": "function under contract no longer exists; its obligations are undecided"})
+		fmt.Printf("VIOLATION property=%s replay=%s no-failing-input-found\n", *prop, rp)
+		fmt.Printf("  contract target %s not found in the tree\n", m)
+	}
+	if lemErr != "" {
+		machinery++
+		fmt.Printf("ERROR lemma: %s\n", lemErr)
+	}
+	if nObl == 0 {
+		machinery++
+		fmt.Printf("ERROR: no obligations generated for %s\n", *prop)
+	}
+	// evidence
+	var fnNames []string
+	notes := map[string]bool{}
+	for _, r := range results {
+		fnNames = append(fnNames, r.Func)
+		for _, n := range r.Notes {
+			notes[n] = true
+		}
+	}
+	var trusted []string
+	for k := range e.usedExt {
+		trusted = append(trusted, "assumed contract: "+k)
+	}
+	for _, g := range e.specs.Globals {
+		trusted = append(trusted, "assumed global fact (established by init, never reassigned): "+g.Text)
+	}
+	sort.Strings(trusted)
+	trusted = append(trusted, globalTrusted...)
+	var assumptions []string
+	for n := range notes {
+		assumptions = append(assumptions, n)
+	}
+	sort.Strings(assumptions)
+	assumptions = append(assumptions, globalAssumptions...)
+	lv := propLevels[*prop]
+	if lv.Level == "" {
+		lv.Level = "proof"
+	}
+	cov := map[string]interface{}{
+		"obligations": nObl, "discharged": nDis,
+		"checker_cmd":  fmt.Sprintf("/verif/bin/check %s --tier %s  (govc: go/ssa -> weakest-precondition VCs -> z3 4.8.12 | z3 5.1.0 | cvc5 1.0.3)", *prop, *tier),
+		"trusted_base": trusted, "samples": samples, "functions_under_contract": fnNames,
+		"discharged_by": bySolver, "solver_seconds_total": round2(solverSecs), "load_seconds": round2(loadS),
+		"known_findings_reported": knownHit, "failed_obligations": failures, "untranslatable": unsup,
+		"explanation": lv.Expl,
+		"rule":        "one SMT query per named obligation generated from the SSA of /repo's working tree; an obligation counts as discharged only if a solver answers unsat",
+	}
+	ev := map[string]interface{}{
+		"property_id": *prop, "tier": *tier, "seed": seed, "level": lv.Level, "coverage": cov,
+		"assumptions": assumptions, "wall_s": round2(time.Since(t0).Seconds()), "violations": violations,
+	}
+	os.MkdirAll(filepath.Join(*vdir, "evidence"), 0o755)
+	b, _ := json.MarshalIndent(ev, "", " ")
+	os.WriteFile(filepath.Join(*vdir, "evidence", *prop+".json"), append(b, '\n'), 0o644)
+	fmt.Printf("%s: %d functions, %d obligations, %d discharged, %d violations, %d known findings, %.1fs\n", *prop, len(results), nObl, nDis, violations, len(knownHit), time.Since(t0).Seconds())
+	if *verbose {
+		for _, r := range results {
+			printResult(e, r, false)
+		}
+	}
+	if violations > 0 {
+		return 1
+	}
+	if machinery > 0 {
+		return 2
+	}
+	return 0
+}
+
+func round2(f float64) float64 { return float64(int(f*100+0.5)) / 100 }
+
+func resultOutput(o *Obligation) string {
+	if o.Result == nil {
+		return ""
+	}
+	s := o.Result.Output
+	if len(s) > 4000 {
+		s = s[:4000]
+	}
+	return fmt.Sprintf("status=%s solver=%s phase=%s all=%v %s", o.Result.Status, o.Result.Solver, o.Result.Phase, o.Result.All, s)
+}
+
+func resultModel(o *Obligation) string {
+	if o.Result == nil {
+		return ""
+	}
+	s := o.Result.Model
+	if len(s) > 20000 {
+		s = s[:20000]
+	}
+	return s
+}
+
+func hasQuantHyps(o *Obligation) bool {
+	qc := map[*Term]bool{}
+	for _, h := range o.Hyps {
+		if hasQuant(h, qc) {
+			return true
+		}
+	}
+	return hasQuant(o.Goal, qc)
+}
+
+func replayPath(vdir, prop, name string) string {
+	return filepath.Join(vdir, "replays", prop, sanitize(name)+".json")
+}
+
+func writeReplay(vdir, prop, name string, doc map[string]interface{}) string {
+	p := replayPath(vdir, prop, name)
+	os.MkdirAll(filepath.Dir(p), 0o755)
+	b, _ := json.MarshalIndent(doc, "", " ")
+	os.WriteFile(p, append(b, '\n'), 0o644)
+	return p
+}
+
+// lemmaObligations evaluates the lemmas tagged with prop.
+func (e *Engine) lemmaObligations(prop string) ([]*Obligation, string) {
+	var out []*Obligation
+	errs := ""
+	for _, l := range e.specs.Lemmas {
+		has := false
+		for _, t := range l.Tags {
+			if t == prop {
+				has = true
+			}
+		}
+		if !has {
+			continue
+		}
+		func() {
+			defer func() {
+				if x := recover(); x != nil {
+					errs += fmt.Sprintf("lemma %s: %v; ", l.Name, x)
+				}
+			}()
+			rt := &root{e: e, counters: map[string]int{}, notes: map[string]bool{}, lateGhost: map[string]bool{}}
+			e.initHeap = map[string]*Term{}
+			st := e.newEntryState()
+			rt.entry = st
+			r := &FnRun{root: rt, e: e, vals: map[ssa.Value]Val{}, names: map[string]ssa.Value{}}
+			env := r.newEnv(st, st)
+			g := env.EvalBool(l.E)
+			for i, pc := range e.splitGoal(g) {
+				n := "lemma:" + l.Name
+				if i > 0 {
+					n = fmt.Sprintf("%s.%d", n, i)
+				}
+				out = append(out, &Obligation{Name: n, Func: "lemma", Kind: "lemma", Hyps: append(append([]*Term{}, rt.facts...), pc.hyps...), Goal: pc.goal, Text: l.Text, Tags: l.Tags})
+			}
+		}()
+	}
+	return out, errs
+}
+
+var propLevels = map[string]propLevel{}
+
+var globalTrusted = []string{
+	"the VC generator govc itself (its encoding of go/ssa semantics for go1.24/amd64) and the SMT solvers",
+	"go/ssa (x/tools v0.29.0) is a faithful lowering of the source the compiler builds",
+}
+
+var globalAssumptions = []string{
+	"memory model: little-endian amd64 gc layout; typed heap (per-field arrays) and raw unsafe.Pointer memory are disjoint; allocation never fails; stack unbounded",
+	"package-level variables are written only during package initialisation",
+	"machine integers are fixed-width bit-vectors with Go wrap-around semantics (not idealised)",
+}
+
+func modelInputs(e *Engine, o *Obligation) map[string]string {
+	if o.Result == nil || o.Result.Model == "" {
+		return nil
+	}
+	m := parseModel(o.Result.Model)
+	out := map[string]string{}
+	for _, l := range o.Inputs {
+		if l.T.Op == "var" {
+			if v, ok := m[l.T.Name]; ok {
+				out[l.Name] = v
+			}
+		}
+	}
+	return out
+}
+
+// parseModel extracts simple (define-fun name () sort value) bindings.
+func parseModel(s string) map[string]string {
+	out := map[string]string{}
+	lines := strings.Split(s, "\n")
+	for i := 0; i < len(lines); i++ {
+		l := strings.TrimSpace(lines[i])
+		if !strings.HasPrefix(l, "(define-fun ") {
+			continue
+		}
+		rest := strings.TrimPrefix(l, "(define-fun ")
+		name := ""
+		if strings.HasPrefix(rest, "|") {
+			j := strings.Index(rest[1:], "|")
+			if j < 0 {
+				continue
+			}
+			name = rest[1 : j+1]
+			rest = rest[j+2:]
+		} else {
+			j := strings.Index(rest, " ")
+			if j < 0 {
+				continue
+			}
+			name = rest[:j]
+			rest = rest[j:]
+		}
+		rest = strings.TrimSpace(rest)
+		if !strings.HasPrefix(rest, "()") {
+			continue
+		}
+		val := ""
+		// value may be on this line or the next
+		if k := strings.LastIndex(rest, ")"); k >= 0 && (strings.Contains(rest, "#x") || strings.Contains(rest, "#b") || strings.HasSuffix(rest, "true)") || strings.HasSuffix(rest, "false)")) {
+			f := strings.Fields(strings.TrimSuffix(rest, ")"))
+			val = f[len(f)-1]
+		} else if i+1 < len(lines) {
+			val = strings.TrimSuffix(strings.TrimSpace(lines[i+1]), ")")
+		}
+		if strings.HasPrefix(val, "#x") || strings.HasPrefix(val, "#b") || val == "true" || val == "false" {
+			out[name] = val
+		}
+	}
+	return out
+}
